@@ -374,6 +374,23 @@ def c06(R, ctx):
     bad = correspondence(R, ctx, reqs, impl, model, what="events, pull counts, outcome class incl. crash")
     report_disagreements(R, ctx, reqs, impl, model, bad, flagged)
     distribution(R, cases, impl)
+    # the sweep over every decodable type and every command code that `tpmstream type` performs, on very short inputs
+    import tempfile
+    tmp = tempfile.mkdtemp(prefix="c06.", dir=common.WORK)
+    try:
+        blobs = [b"", b"\x01", bytes.fromhex("000b"), bytes.fromhex("40000001"), bytes.fromhex("0000000100"), bytes(R.rng.randrange(256) for _ in range(R.rng.randrange(1, 6)))]
+        for k_, blob in enumerate(blobs):
+            path = os.path.join(tmp, "b%d" % k_)
+            open(path, "wb").write(blob)
+            rc_, out_, err_ = run_cli(["type", "--in", "binary", path])
+            if "Traceback" in err_ or rc_ not in (0, 1):
+                R.violation("c06:type-sweep:" + (err_.strip().split("\n")[-1].split(":")[0] or "status")[:40],
+                            "`tpmstream type` on a %d-byte input ends with an internal error: %s" % (len(blob), err_.strip().split("\n")[-1][:200]),
+                            {"argv": ["type", "--in", "binary", "<file>"], "file_hex": h(blob), "stderr": err_[-800:], "status": rc_})
+        R.coverage["type_sweeps_on_short_inputs"] = len(blobs)
+    finally:
+        import shutil
+        shutil.rmtree(tmp, ignore_errors=True)
 
 
 # ----------------------------------------------------------------------------- C13
@@ -395,6 +412,13 @@ def c13(R, ctx):
     cases += C.arbitrary(n=200)
     res, _ = engine(R, ctx, cases, modes=("1",))
     reqs, impl, model = res["1"]
+    raised = [c for c, r in zip(cases, impl) if ";RAISE " in r or r.startswith("RAISE ")]
+    rsample = R.rng.sample(raised, min(len(raised), 120 if ctx["tier"] == "quick" else 1500))
+    rres = common.run_impl("impl_worker", ["remsrc %s %s" % (c[1], h(c[2])) for c in rsample])
+    for c, r in zip(rsample, rres):
+        if r.startswith("DIFF"):
+            R.violation("c13:source", "the remainder reported with the error depends on the kind of byte source: %s" % r[:200], replay_of(c, "1", r))
+    R.coverage["remainder_source_kind_runs"] = len(rsample) * 5
     flagged = set()
     nraise = 0
     lastpos = 0
@@ -558,6 +582,36 @@ def c10(R, ctx):
             R.violation("c10:source:" + fe, "decoding through the %s front-end differs for byte source kind %s" % (fe, r[:200]),
                         {"front_end": fe, "strict": mode == "1", "container_hex": h(text), "result": r, "how": "harness/impl_worker.py: " + q[:80] + "..."})
     R.coverage["front_end_source_kind_runs"] = len(freqs) * 7
+    # ... and a prefix of a container decodes like the bytes complete in it: the bytes the front-end's scanner delivers
+    # (model vs implementation), and the events of the front-end vs the Binary decode of exactly those bytes
+    pre = [(fe, text) for (fe, mode, text) in fmeta if mode == "1"]
+    for (fe, text) in list(pre):
+        # cut directly behind a hex pair / inside one
+        m_ = list(re.finditer(b"[0-9A-Fa-f]{2}", text))
+        for mm in R.rng.sample(m_, min(len(m_), 2)):
+            pre.append((fe, text[:mm.end()]))
+            pre.append((fe, text[:mm.end() - 1]))
+    pre = pre if ctx["tier"] != "quick" else R.rng.sample(pre, min(len(pre), 80))
+    sreqs_ = ["fe %s %s" % (fe, h(text)) for fe, text in pre]
+    simpl = common.run_impl("impl_worker", sreqs_)
+    smodel = common.run_model(sreqs_) if ctx["driver_ok"] else simpl
+    ereqs_, emeta_ = [], []
+    for (fe, text), im, mo, q in zip(pre, simpl, smodel, sreqs_):
+        if im != mo:
+            R.violation("c10:prefix:" + fe, "the %s front-end delivers %s for a prefix of a container, the scanner model %s" % (fe, im[:120], mo[:120]),
+                        {"front_end": fe, "container_hex": h(text), "implementation": im, "model": mo, "how": "harness/impl_worker.py: " + q[:80] + "..."})
+        parts_ = mo.split("|")
+        carried, ok_ = (parts_[0] or "-"), (parts_[1] if len(parts_) > 1 else "0")
+        if ok_ == "1":
+            ereqs_ += ["fevents %s 1 S %s" % (fe, h(text)), "fevents binary 1 S %s" % (carried if carried else "-")]
+            emeta_.append((fe, text))
+    eres_ = common.run_impl("impl_worker", ereqs_)
+    for k_, (fe, text) in enumerate(emeta_):
+        a_, b_ = eres_[2 * k_], eres_[2 * k_ + 1]
+        if a_ != b_:
+            R.violation("c10:prefix-events:" + fe, "a prefix of a %s container does not decode like the bytes complete in it" % fe,
+                        {"front_end": fe, "container_hex": h(text), "front_end_result": a_[-400:], "binary_result": b_[-400:]})
+    R.coverage["front_end_prefix_cases"] = len(pre)
     bad = correspondence(R, ctx, reqs, impl, model, what="events, pull count of every event, outcome")
     report_disagreements(R, ctx, reqs, impl, model, bad, flagged)
     distribution(R, cases, impl)
@@ -960,6 +1014,15 @@ def c12(R, ctx):
         if len(crossed) >= (30 if ctx["tier"] == "quick" else 200):
             break
     R.coverage["histories_with_a_value_valid_elsewhere"] = len(crossed)
+    # a response decoded on its own (no encryption expectation) before and after a command with the same code whose
+    # session asks for response encryption, and vice versa
+    for cc in R.rng.sample(tpm2b_first, min(len(tpm2b_first), 8 if ctx["tier"] == "quick" else 30)):
+        ce, _ = C.G.command(cc, nsessions=1, encrypt=True)
+        rp, _ = C.G.response(cc, enc=False, rc=0, nsessions=1)
+        crossed.append([("R:%d:0" % cc, rp), ("C", ce), ("R:%d:0" % cc, rp)])
+        re_, _ = C.G.response(cc, enc=True, rc=0)
+        cp0, _ = C.G.command(cc, nsessions=1, encrypt=False)
+        crossed.append([("R:%d:1" % cc, re_), ("C", cp0), ("R:%d:1" % cc, re_)])
     reqs = []
     hist = []
     for items in crossed:
@@ -1100,7 +1163,14 @@ def c03(R, ctx):
             # a response decoded with the encryption flag although its tag announces no sessions is rejected by the
             # specification for that reason (the flag is the caller's input), not because of a size field: not a C03 matter
             flag_without_sessions = c[1].startswith("R:") and c[1].endswith(":1") and bytes(c[2][:2]) != b"\x80\x02"
-            if spec is not None and spec[k] == "NOTWF" and not flag_without_sessions:
+            # a response decoded without a command code: the specification (which reads a response with its command's
+            # layout) has no reading; only failed responses are accepted there - header-only - and exactness is directly
+            # that the size field is the length of the input, which is the length of the header
+            no_cc = c[1].startswith("R:-:")
+            if no_cc:
+                if not (len(c[2]) == 10 and int.from_bytes(c[2][2:6], "big") == 10):
+                    problem = "accepted without a command code, but responseSize does not equal the length of the header-only message"
+            elif spec is not None and spec[k] == "NOTWF" and not flag_without_sessions:
                 problem = "accepted, but some size field does not equal the length of the region it governs (the input does not parse with exact sizes)"
         elif io.startswith("RAISE") and io.split(" ")[1] in ("X", "A", "U"):
             f = io.split(" ")
@@ -1170,10 +1240,21 @@ def c09(R, ctx):
     # warn mode: a response with a recoverable finding (out-of-range value, sessions contradicting the encryption
     # expectation) inside a stream is reported and decoding goes on, exactly as when the messages are decoded one by one
     wreqs, wmeta = [], []
-    for _ in range(10 if ctx["tier"] == "quick" else 60):
+    n_w = 12 if ctx["tier"] == "quick" else 60
+    for it_ in range(n_w):
         c, ci, r, ri = C.G.pair()
         c2, ci2, r2, ri2 = C.G.pair()
-        kind = R.rng.choice(["value", "value", "mismatch"])
+        kind = ["padded-last", "padded", "mismatch", "value"][it_ % 4] if it_ < 8 else R.rng.choice(["value", "value", "mismatch", "padded", "padded-last"])
+        if kind in ("padded", "padded-last"):
+            # the size field of a message covers more bytes than its fields consume: reported (Subceeded), the padding
+            # skipped - inside the stream exactly as on its own, also when it is the last message
+            k_ = R.rng.choice([1, 2, 7])
+            pad = bytes(R.rng.randrange(256) for _ in range(k_))
+            rbad = r[:2] + (len(r) + k_).to_bytes(4, "big") + r[6:] + pad
+            parts = [c2, r2, c, rbad] if kind == "padded-last" else [c, rbad, c2, r2]
+            wreqs.append("stream9w " + ",".join(h(p_) for p_ in parts))
+            wmeta.append((kind, parts))
+            continue
         if kind == "value":
             vf = C.value_faults(("x", "R:%d:%d" % (ci["cc"], 1 if ci["rsp_enc"] else 0), r, ri), per=1)
             if not vf:
@@ -1894,6 +1975,11 @@ def c19(R, ctx):
             open(path, "wb").write(c[2])
             tfiles.append(("bin", ["binary"], path))
         tfiles.append(("bin", ["binary"], os.path.join(tmp, "edge_getrandom")))
+        # very short files: a handle, an algorithm id, a single byte, nothing
+        for k_, blob in enumerate([bytes.fromhex("40000001"), bytes.fromhex("000b"), b"\x01", b"", bytes.fromhex("0000000100")]):
+            path = os.path.join(tmp, "short%d" % k_)
+            open(path, "wb").write(blob)
+            tfiles.append(("bin", ["binary"], path))
         # the same files as hex text (whitespace between and inside pairs), read with --in hex
         tjobs = [("binary", f[2]) for f in tfiles]
         for f in tfiles[:(1 if ctx["tier"] == "quick" else 4)] + tfiles[-1:]:
@@ -1916,10 +2002,14 @@ def c19(R, ctx):
                             % (fmt, len(got), len(want), sorted(set(got) ^ set(want))[:3]),
                             {"argv": ["type", "--in", fmt, fpath], "file_hex": h(open(fpath, "rb").read()), "stdout": got[:100], "expected": want[:100], "stderr": err[-500:]})
         # `example X`
-        names = R.rng.sample(sorted(ccnames.values()), 2 if ctx["tier"] == "quick" else 20) + (["TPM2B_DIGEST"] if ctx["tier"] == "quick" else ["TPM2B_DIGEST", "TPMT_PUBLIC", "TPMA_SESSION"])
+        names = sorted(ccnames.values()) + (["TPM2B_DIGEST"] if ctx["tier"] == "quick" else ["TPM2B_DIGEST", "TPMT_PUBLIC", "TPMA_SESSION"])
         blocks_checked = 0
-        for nm in names:
-            rc, out, err = run_cli(["example", nm])
+        from concurrent.futures import ThreadPoolExecutor
+        with ThreadPoolExecutor(max_workers=12) as ex_:
+            ex_results = list(ex_.map(lambda nm_: run_cli(["example", nm_]), names))
+        redecode_budget = set(R.rng.sample(names, 3 if ctx["tier"] == "quick" else 25))
+        msg_blocks = []
+        for nm, (rc, out, err) in zip(names, ex_results):
             n_runs += 1
             if rc != 0:
                 R.violation("c19:example:status", "`tpmstream example %s` exits %d" % (nm, rc), {"argv": ["example", nm], "stderr": err[-800:]})
@@ -1941,7 +2031,14 @@ def c19(R, ctx):
                     if head != nm:
                         R.violation("c19:example:filter", "`tpmstream example %s` prints a %s" % (nm, head), {"argv": ["example", nm], "block": block[:600]})
                     root = "T:S:%s" % nm
-                if blocks_checked <= (12 if ctx["tier"] == "quick" else 200):
+                if head in ("Command", "Response") and nm in ccnames.values():
+                    if "TPM2B_ENCRYPTED_PARAM" not in block:
+                        msg_blocks.append((nm, head, data, "C" if head == "Command" else "R:%d:0" % [k for k, v in ccnames.items() if v == nm][0]))
+                    # what is printed as a message of this command is one: a command carries the code in its header, a
+                    # response is at least a header
+                    if len(data) < 10 or (head == "Command" and int.from_bytes(data[2:6], "big") != len(data)):
+                        R.violation("c19:example:filter", "`tpmstream example %s` prints a %s that is not a whole message" % (nm, head), {"argv": ["example", nm], "block": block[:600]})
+                if nm in redecode_budget and blocks_checked <= (12 if ctx["tier"] == "quick" else 200):
                     # each printed example re-decodes to what is shown
                     pr = common.run_impl("impl_worker", ["pretty cur 0 %s %s" % (root, h(data))])[0]
                     shown = [l for l in lines[1:] if l.strip()]
@@ -1953,6 +2050,16 @@ def c19(R, ctx):
                         if "TPM2B_ENCRYPTED_PARAM" not in block:
                             R.violation("c19:example:redecode", "`tpmstream example %s`: an example does not re-decode to what is shown (%d rows vs %d lines)" % (nm, n_rows, len(shown)),
                                         {"argv": ["example", nm], "block": block[:1500], "redecode": pr[:1500]})
+        # every block printed as a command / response of the requested command has the length its size field says (what
+        # the bundled captures hold are whole messages; encrypted parameter areas cannot be judged without the sessions)
+        mres = common.run_impl("impl_worker", ["dec cur 0 %s %s" % (root_, h(data_)) for (_n, _h, data_, root_) in msg_blocks]) if msg_blocks else []
+        for (nm_, head_, data_, root_), r_ in zip(msg_blocks, mres):
+            evs_, out_ = split_result(no_pulled(r_))
+            sizeprob = [e_ for e_ in evs_ if e_.startswith(("W D", "W S", "W X", "W A", "W U"))]
+            if sizeprob:
+                R.violation("c19:example:filter", "`tpmstream example %s` prints as a %s something that is not a whole message of that command (%s)" % (nm_, head_, sizeprob[0][:80]),
+                            {"argv": ["example", nm_], "block_hex": h(data_), "decoded": r_[-600:]})
+        R.coverage["example_messages_checked"] = len(msg_blocks)
         R.coverage.update({"explanation": "differential runs of `python -m tpmstream` (convert in every input/output format incl. malformed input, --type/--command, refusals, type, example) against in-process library calls on the same files; the refusal decision additionally against the proved Model/Cli.v",
                            "evaluations": n_runs, "distinct_nontrivial": n_runs, "example_blocks_checked": blocks_checked,
                            "rule": "one evaluation = one process of the command line; all are distinct invocations",
